@@ -35,6 +35,7 @@ func runC08(args []string) {
 		nv = 8
 		nrandom = 40
 	}
+	pickHist = func(k string) { r.Hist(k) }
 	corpus, err := buildCorpus(r, corpusCfg{Opts: []Opts{{}}, Random: nrandom, Name: "c08"})
 	if err != nil {
 		fatalSetup(r, err)
@@ -44,7 +45,7 @@ func runC08(args []string) {
 		vg := codec.NewVG(t.Ctx, r.Seed)
 		// the first value (everything present) and those that add the most wire features
 		var vals []any
-		for _, ev := range pickRich(t, encodeValues(ch, t, vg.Records(t.Def, 12)), nv) {
+		for _, ev := range pickRich(t, encodeValues(ch, t, vg.RecordsRich(t.Def, 12)), nv) {
 			vals = append(vals, ev.V)
 		}
 		done := 0
